@@ -56,6 +56,23 @@ Proof.
     + eapply IH; eauto.
 Qed.
 
+(* stronger: a break beyond the width is only taken when there is no whitespace at all
+   between the indent and the break *)
+Lemma find_break_beyond_strong ps w m b : StronglySorted lt ps -> find_break ps w m = Some b -> w < b ->
+  forall p, In p ps -> m < p -> p < b -> False.
+Proof.
+  induction ps as [|p0 rest IH]; intros Hs; cbn [find_break]; [discriminate|].
+  inversion Hs as [|? ? Hs' Hall]; subst. rewrite Forall_forall in Hall.
+  match goal with |- context [if ?b then _ else _] => destruct b eqn:E end.
+  - intros [= <-] Hw p [<-|Hin] Hm Hp; [lia|]. apply Hall in Hin. lia.
+  - intros Hf Hw p [<-|Hin] Hm Hp.
+    + assert (Em : Nat.ltb m p0 = true) by (apply Nat.ltb_lt; lia).
+      rewrite Em, andb_true_r in E. destruct rest as [|q rest']; [discriminate|].
+      apply Nat.ltb_ge in E. eapply (IH Hs' Hf Hw q); [left; reflexivity| |lia].
+      specialize (Hall q (or_introl eq_refl)). lia.
+    + eapply IH; eauto.
+Qed.
+
 Lemma find_break_none ps w m : StronglySorted lt ps -> find_break ps w m = None ->
   forall p, In p ps -> p <= m.
 Proof.
@@ -258,6 +275,34 @@ Proof.
     destruct Hin as [<-|[]]. lia.
 Qed.
 
+(* ---- width, strong form: a line longer than the width contains no whitespace after
+        the indent at all, i.e. it could not have been broken anywhere ---- *)
+Theorem iter_lines_width_strong fuel : forall s w ind ls,
+  iter_lines fuel s w ind = Some ls ->
+  forall l, In l ls -> w < length l ->
+  forall p c, nth_error l p = Some c -> is_space c = true -> length ind < p -> False.
+Proof.
+  induction fuel as [|f IH]; intros s w ind ls; cbn [iter_lines]; [discriminate|].
+  destruct (Nat.ltb w (length s)) eqn:Ew.
+  - destruct (find_break _ _ _) as [b|] eqn:Eb.
+    + destruct (iter_lines f _ w ind) as [ls'|] eqn:Er; [|discriminate].
+      intros [= <-] l [<-|Hin] Hl p c Hp Hc Hm; [|eapply IH; eauto].
+      pose proof (find_break_spec _ _ _ _ Eb) as [Hbin Hbm].
+      apply ws_positions_spec in Hbin as [Hbr _].
+      rewrite firstn_length in Hl.
+      assert (Hpb : p < b).
+      { assert (Hx : nth_error (firstn b s) p <> None) by congruence. apply nth_error_Some in Hx. rewrite firstn_length in Hx. lia. }
+      eapply (find_break_beyond_strong _ _ _ _ (ws_positions_sorted s 0) Eb); [lia| |exact Hm|exact Hpb].
+      apply (ws_positions_complete s 0 p c); auto.
+      rewrite nth_error_firstn_lt in Hp by exact Hpb. exact Hp.
+    + intros [= <-] l [<-|[]] Hl p c Hp Hc Hm.
+      pose proof (find_break_none _ _ _ (ws_positions_sorted s 0) Eb p) as H.
+      assert (In p (ws_positions s 0)) by (apply (ws_positions_complete s 0 p c); auto).
+      apply H in H0. lia.
+  - apply Nat.ltb_ge in Ew. intros [= <-] l Hin Hl. destruct s; [destruct Hin|].
+    destruct Hin as [<-|[]]. lia.
+Qed.
+
 (* ---- no trailing whitespace after rstrip ---- *)
 Lemma lstrip_head s : match lstrip s with [] => True | c :: _ => is_space c = false end.
 Proof.
@@ -310,6 +355,20 @@ Proof.
   apply in_map_iff in Hin as [l' [<- Hin]].
   destruct (rstrip_prefix l') as [t [Ht _]].
   eapply (iter_lines_width _ _ _ _ _ E l' Hin); [| |exact Hc|exact Hm|exact Hw].
+  - pose proof (rstrip_length l'). lia.
+  - rewrite Ht. rewrite nth_error_app1; [exact Hp|].
+    assert (Hx : nth_error (rstrip l') p <> None) by congruence. apply nth_error_Some in Hx. exact Hx.
+Qed.
+
+Theorem wrap_lines_width_strong s w ind ls : wrap_lines s w ind = Some ls ->
+  forall l, In l ls -> w < length l ->
+  forall p c, nth_error l p = Some c -> is_space c = true -> length ind < p -> False.
+Proof.
+  unfold wrap_lines. destruct (iter_lines _ _ _ _) as [ls'|] eqn:E; [|discriminate].
+  intros [= <-] l Hin Hl p c Hp Hc Hm.
+  apply in_map_iff in Hin as [l' [<- Hin]].
+  destruct (rstrip_prefix l') as [t [Ht _]].
+  eapply (iter_lines_width_strong _ _ _ _ _ E l' Hin); [| |exact Hc|exact Hm].
   - pose proof (rstrip_length l'). lia.
   - rewrite Ht. rewrite nth_error_app1; [exact Hp|].
     assert (Hx : nth_error (rstrip l') p <> None) by congruence. apply nth_error_Some in Hx. exact Hx.
